@@ -17,7 +17,7 @@ import mutate
 
 FILES = ["builder/static_code.go", "builder/builder.go", "builder/left_recursion.go", "builder/scc.go",
          "ast/ast.go", "ast/ast_optimize.go", "ast/ast_walk.go", "main.go"]
-TESTPKG = {"builder/": "./builder ./test/... .", "ast/": "./ast .", "main.go": "."}
+TESTPKG = {"builder/": "./builder ./test/... .", "ast/": "./ast .", "main.go": ".", "bootstrap/": "./bootstrap/... ."}
 
 SWAPS = [("==", "!="), ("!=", "=="), ("<=", "<"), (">=", ">"), (" < ", " <= "), (" > ", " >= "), ("&&", "||"), ("||", "&&"),
          ("++", "--"), ("+ 1", "- 1"), ("- 1", "+ 1"), ("true", "false"), ("false", "true"), (" += ", " -= ")]
